@@ -609,7 +609,8 @@ impl Connect {
         let (props, consumed) = Properties::parse(&data[cursor..])?;
         cursor += consumed;
         validate_connect_properties(&props)?;
-        let property_length = VariableByteInteger::from_u32(props.size() as u32).unwrap();
+        let property_length =
+            VariableByteInteger::from_len(props.size()).map_err(|_| MqttError::MalformedPacket)?;
 
         // Client Identifier
         let (client_id_buf, consumed) =
@@ -629,7 +630,8 @@ impl Connect {
             cursor += consumed;
             validate_will_properties(&w_props)?;
             will_props = w_props;
-            will_property_length = VariableByteInteger::from_u32(will_props.size() as u32).unwrap();
+            will_property_length = VariableByteInteger::from_len(will_props.size())
+                .map_err(|_| MqttError::MalformedPacket)?;
 
             // Will Topic
             let (w_topic, consumed) = MqttString::decode(&data[cursor..])?;
@@ -669,7 +671,8 @@ impl Connect {
 
         let connect = Connect {
             fixed_header: [FixedHeader::Connect as u8],
-            remaining_length: VariableByteInteger::from_u32(cursor as u32).unwrap(),
+            remaining_length: VariableByteInteger::from_len(cursor)
+                .map_err(|_| MqttError::MalformedPacket)?,
             protocol_name,
             protocol_version_buf,
             connect_flags_buf,
